@@ -133,6 +133,14 @@ def translate_source():
     except Exception as e:
         open(out12, 'w').write('/-! source-level translation of the block-structured unpack methods failed on this tree -/\n')
         status['Blocks'] = 'untranslatable: translator failed (' + type(e).__name__ + ')'
+    # and the bookkeeping of the field container
+    out13 = os.path.join(LEAN, 'UbxModel', 'Gen', 'SrcFields.lean')
+    try:
+        r = sh([PY, os.path.join(ROOT, 'tools', 'pysrc2lean_fields.py'), REPO, out13], timeout=120)
+        status['Fields'] = r.stdout.strip().splitlines()[-1]
+    except Exception as e:
+        open(out13, 'w').write('/-! source-level translation of the field container failed on this tree -/\n')
+        status['Fields'] = 'untranslatable: translator failed (' + type(e).__name__ + ')'
     # and the frame registry
     out10 = os.path.join(LEAN, 'UbxModel', 'Gen', 'SrcFactory.lean')
     try:
@@ -170,6 +178,7 @@ SRC_THEOREMS = {
                'pack_u4s', 'poll_pack'],
     'Blocks': ['addAll_fresh', 'blocks_loop', 'objs_append', 'padzero_append', 'padzero_decoded', 'unpack_objs', 'valueAt_objs', 'decode_ints', 'counted_eq',
                'blk_gnss', 'blk_esfla', 'blk_esfstatus', 'quot_len', 'blk_monver'],
+    'Fields': ['contains_iff', 'setitem_fresh', 'inv_init', 'fields_add', 'add_inv', 'addMany_inv', 'sorted_is_added', 'sorted_reachable', 'add_names', 'get_added'],
     'Factory': ['getitem_setitem', 'getitem_err', 'lookupR_register', 'agree_empty', 'fac_register', 'fac_build_with_data', 'fac_build'],
     'Gpsd': ['g_parse_version', 'g_devices_loop', 'g_parse_devices', 'g_line', 'g_lines', 'g_parse_gpsd_msg', 'absG_init', 'g_ready'],
     'Server': ['srv_check_poll', 'srv_check_ack_nak', 'srv_check_mga', 'srv_send', 'srv_wait', 'srv_set', 'srv_set_mga',
